@@ -139,6 +139,42 @@ def run(ctx):
                     cur = cur.orelse[0]
                 else:
                     break
+    if len(chain) < 2:
+        chain = []
+        # table-driven form:  for T, L in ((Cls, lst), ...):
+        #                         if isinstance(src, T): L.append(src); break
+        from .c08 import _resolve_local
+        for lp in walk_no_nested(cc.node):
+            if not (isinstance(lp, ast.For) and
+                    isinstance(lp.target, ast.Tuple) and
+                    len(lp.target.elts) == 2):
+                continue
+            tbl = lp.iter
+            if isinstance(tbl, ast.Name):
+                tbl = _resolve_local(cc.node, tbl)
+            if not (isinstance(tbl, (ast.Tuple, ast.List)) and all(
+                    isinstance(e, (ast.Tuple, ast.List)) and len(e.elts) == 2
+                    for e in tbl.elts)):
+                continue
+            tv, lv = [norm(e) for e in lp.target.elts]
+            ifs = [x for x in lp.body if isinstance(x, ast.If) and
+                   isinstance(x.test, ast.Call) and
+                   norm(x.test.func) == "isinstance" and
+                   len(x.test.args) == 2 and norm(x.test.args[1]) == tv]
+            if len(ifs) != 1:
+                continue
+            body = ifs[0].body
+            app = [c for c in ast.walk(ast.Module(body, []))
+                   if isinstance(c, ast.Call) and
+                   isinstance(c.func, ast.Attribute) and
+                   c.func.attr == "append" and norm(c.func.value) == lv]
+            brk = any(isinstance(x, ast.Break) for x in body)
+            ctx.check("C18-R1", cc, "first matching class wins", brk and
+                      bool(app), "without a break after the append a "
+                      "ComponentSource is also filed under its base class "
+                      "SimpleSource", node=ifs[0])
+            for e in tbl.elts:
+                chain.append((norm(e.elts[0]), norm(e.elts[1]), e))
     ctx.floor("C18-R1", len(chain), 3, "isinstance tests in classify_catalog")
     for i, (cls, lst, node) in enumerate(chain):
         cq = prog.resolve_name(models, cls)
@@ -430,8 +466,9 @@ def run(ctx):
         if isinstance(iff, ast.If) and isinstance(iff.test, ast.Compare) and \
                 isinstance(iff.test.ops[0], ast.In):
             comp = iff.test.comparators[0]
-            if isinstance(comp, ast.List):
-                handled |= {e.value for e in comp.elts}
+            if isinstance(comp, (ast.List, ast.Tuple, ast.Set)):
+                handled |= {e.value for e in comp.elts
+                            if isinstance(e, ast.Constant)}
             elif isinstance(comp, ast.Call) and \
                     norm(comp.func).endswith(".keys"):
                 handled |= set(dict_keys.get(norm(comp.func.value), []))
